@@ -1005,7 +1005,48 @@ def r20(ctx):
         raise AnalysisBroken('C14.R20: no transport write found in EnhancedDevice::send')
 
 
+def r21(ctx):
+    ctx.rule('C14.R21', 'the transport hands out everything it has buffered: every value FileTransport::read stores through its '
+             'length out-parameter is the buffered length m_bufLen (not the size of the last ::read) - the frame decoder leaves '
+             'the first byte of an incomplete sequence in the buffer, and with the count of the new chunk only, the tail of the '
+             'buffer stays invisible', minimum=2)
+    fb = ctx.fb
+    fn = fb.fn('ebusd::FileTransport::read')
+    ctx.touch(fn)
+    lp = fn.P(2)
+    n = 0
+    for nid, d, rhs, op, lhs in fn.assignments():
+        if lhs is None or rhs is None or fn.key(lhs) != '*' + lp:
+            continue
+        n += 1
+        k = fn.xkey(rhs)
+        ok = k in ('this.m_bufLen', '#0') or fn.key(rhs) == 'this.m_bufLen'
+        ctx.ob('C14.R21', fn, nid, ok, 'length handed out by read()', 'the buffered length: %s (%s)' % (ok, fn.key(rhs)))
+    if n < 2:
+        raise AnalysisBroken('C14.R21: stores through the length out-parameter of FileTransport::read not found')
+
+
+def r22(ctx):
+    ctx.rule('C14.R22', 'an error frame can only cancel a RUNNING arbitration: BaseDevice::cancelRunningArbitration stores as_error '
+             'through the state out-parameter only behind the test that an arbitration is requested (m_arbitrationMaster != SYN) - '
+             'its callers call it for every error frame and transport error', minimum=1)
+    fb = ctx.fb
+    fn = fb.fn('ebusd::BaseDevice::cancelRunningArbitration')
+    ctx.touch(fn)
+    n = 0
+    for nid, d, rhs, op, lhs in fn.assignments():
+        if lhs is None or fn.key(lhs) != '*' + fn.P(0):
+            continue
+        n += 1
+        ok = fn.needs_one_of(nid, [('(this.m_arbitrationMaster == #170)', False)])
+        ctx.ob('C14.R22', fn, nid, ok, 'as_error reported by cancelRunningArbitration', 'only with an arbitration requested: %s' % ok)
+    if n < 1:
+        raise AnalysisBroken('C14.R22: the store through the state out-parameter was not found')
+
+
 def run(ctx):
+    r21(ctx)
+    r22(ctx)
     r20(ctx)
     import rules.common as _cms
     ctx.rule('C14.R19', 'a failure reported as -1 stays negative: in the sources of this property the result of a POSIX call that reports errors as -1 (read, write, recv, send, poll, open, socket, ioctl, ...) is not converted to an unsigned type where it is stored or tested (equality with the requested length excepted) - held in a size_t a failed read counts as SIZE_MAX received bytes, the buffered length runs past the 32 byte receive buffer and the decoder reads far beyond it', minimum=8)
